@@ -70,16 +70,16 @@ case "$ID" in
     build nostd cargo build --release --offline --no-default-features --features nostd,pikevm
     if [ "${1:-}" = "--replay" ]; then exec "$B/rel/release/mc" C15 "$@"; fi
     W=""
-    for v in idx pro chk u16 nostd; do
+    for v in rel idx pro chk u16 nostd; do
       rm -f "$B/c15_$v".*
       rm -f "$ROOT/replays/C15/hang.json"
       timeout 600 "$B/$v/release/mc" c15-worker "$B/c15_$v"; rc=$?
       if [ $rc -eq 1 ] && [ -f "$ROOT/replays/C15/hang.json" ]; then exit 1; fi  # hang watchdog of the worker reported the violation
       if [ $rc -ge 128 ] && [ $rc -ne 137 ]; then echo "signal $((rc-128))" > "$B/c15_$v.crash";  # killed by a signal (not by the timeout)
       elif [ $rc -ne 0 ]; then echo "MACHINERY: C15 worker $v failed (exit $rc)"; exit 3; fi
-      W="$W,$B/c15_$v"
+      [ $v != rel ] && W="$W,$B/c15_$v"
     done
-    C15_WORKERS="$W" exec "$B/rel/release/mc" C15 "$@" ;;
+    C15_BASELINE="$B/c15_rel" C15_WORKERS="$W" exec "$B/rel/release/mc" C15 "$@" ;;
   C20)
     build pat cargo +nightly build --release --offline --features pattern
     exec "$B/pat/release/mc" C20 "$@" ;;
